@@ -231,7 +231,9 @@ fn run_case(case: &Case, rep: &mut CaseReport) -> Result<(), engine::Failure> {
             let lists = [(0u8, &got.http), (1, &got.tls), (2, &got.tcp), (3, &got.udp)];
             let mut it = sent.iter();
             let mut result = Ok(());
-            let mut received_fds = vec![];
+            // every descriptor that came out is closed at the end, whatever the verdict (a failing case must not
+            // leak descriptors into the cases that follow and into shrinking)
+            let received_fds: Vec<RawFd> = lists.iter().flat_map(|(_, l)| l.iter().map(|x| x.1)).collect();
             'outer: for (kind, list) in lists {
                 let want: Vec<&(u8, SocketAddr, RawFd)> = sent.iter().filter(|s| s.0 == kind).collect();
                 if list.len() != want.len() {
@@ -239,11 +241,9 @@ fn run_case(case: &Case, rep: &mut CaseReport) -> Result<(), engine::Failure> {
                         "C10/listener-count",
                         format!("kind {kind}: sent {} listeners, received {}", want.len(), list.len()),
                     ));
-                    received_fds.extend(list.iter().map(|x| x.1));
                     continue;
                 }
                 for ((addr, fd), w) in list.iter().zip(want) {
-                    received_fds.push(*fd);
                     if *addr != w.1 {
                         result = Err(engine::Failure::new(
                             "C10/listener-address",
